@@ -36,8 +36,14 @@ RULE = (
     "(pipelines: one write, a second steps= override, then the same re-checks); constructor refusals; "
     "(unames) name lists with repeats and suffix-like names through unique_names and through mkpipe with user classes; "
     "(trace) duck-typed recording steps (transformer / decision maker / both / neither / nested / raising) under random "
-    "programs of slices, int and str items, len, evaluate, transform. Non-trivial: the pipeline ran to a result (pipe), "
-    "the object was built and produced an output (method, mk), the list has a repeated name (unames), the program ran "
+    "programs of slices, int and str items, len, evaluate, transform; (used, a fixed share of every run) a method object or "
+    "pipeline that HAS ALREADY BEEN APPLIED to one or two matrices (identical values under other objectives / weights, the "
+    "same matrix, other values) and only then copied (copy(), copy(**its own parameters)), rebuilt from get_parameters() and "
+    "applied to the matrix of the case, m itself applied twice, pipelines also step by step, every suffix slice on the "
+    "prefix output and through copy() of each step: CRITIC (default scale=True) alone / inside random chains, IterativeImputer "
+    "with an integer random_state and sample_posterior / imputation_order='random' / n_nearest_criteria alone / as first step, "
+    "and any other class / random chain. Non-trivial: the pipeline ran to a result (pipe), "
+    "the object was built and produced an output (method, mk, used), the list has a repeated name (unames), the program ran "
     "past construction (trace); distinct by case hash."
 )
 ASSUMPTIONS = [
@@ -1043,6 +1049,144 @@ def gen_seq(rng, pool):
     return seq
 
 
+# ---- objects that have ALREADY BEEN USED (kind "used")
+
+USED_ANY = ["SumScaler", "VectorScaler", "MinMaxScaler", "StandarScaler", "MaxAbsScaler", "MaxScaler", "CenitDistance", "EqualWeighter",
+            "StdWeighter", "EntropyWeighter", "CRITIC", "InvertMinimize", "NegateMinimize", "MinimizeToMaximize", "PushNegatives",
+            "AddValueToZero", "FilterGT", "FilterLE", "FilterIn", "Filter", "FilterNonDominated", "SimpleImputer", "KNNImputer",
+            "IterativeImputer", "WeightedSumModel", "WeightedProductModel", "TOPSIS", "RatioMOORA", "ReferencePointMOORA",
+            "FullMultiplicativeForm", "MultiMOORA", "ELECTRE1", "ELECTRE2", "RankInvariantChecker", "RankInvariantChecker"]
+
+
+def gen_stochastic_imputer(rng, n_crit):
+    """IterativeImputer arguments whose outcome depends on the random stream, with an INTEGER random_state (the
+    configuration is reproducible: the unchanged code re-seeds scikit-learn's imputer at every call)"""
+    seed = rng.randint(0, 50)
+    r = rng.random()
+    kw = []
+    if r < 0.4:
+        kw = [["sample_posterior", True]]
+    elif r < 0.7:
+        kw = [["imputation_order", S("random")]]
+    elif r < 0.85:
+        kw = [["sample_posterior", True], ["imputation_order", S("random")]]
+    else:
+        kw = [["imputation_order", S(rng.choice(["random", "ascending", "roman"]))], ["sample_posterior", rng.random() < 0.5]]
+    if n_crit >= 3 and rng.random() < 0.4:
+        kw.append(["n_nearest_criteria", I(rng.randint(1, n_crit - 2))])
+    kw.append(["max_iter", I(rng.randint(2, 5))])
+    if rng.random() < 0.3:
+        kw.append(["initial_strategy", S(rng.choice(["median", "mean"]))])
+    kw.append(["random_state", I(seed)])
+    rng.shuffle(kw)
+    return kw
+
+
+def punch_nans(rng, d):
+    m, n = len(d["matrix"]), len(d["matrix"][0])
+    for _ in range(rng.randint(2, max(2, m // 2))):
+        i, j = rng.randrange(m), rng.randrange(n)
+        if sum(1 for r in d["matrix"] if r[j] is not None) > 3:
+            d["matrix"][i][j] = None
+    if all(v is not None for r in d["matrix"] for v in r):
+        d["matrix"][0][0] = None
+    return d
+
+
+def flipped(rng, d, reweigh=False):
+    """identical matrix values, other objectives: at least one, not all, criteria flipped"""
+    n = len(d["objectives"])
+    w = dict(d)
+    if n >= 2:
+        flip = set(rng.sample(range(n), rng.randint(1, n - 1)))
+    else:
+        flip = {0}
+    w["objectives"] = [(-o if j in flip else o) for j, o in enumerate(d["objectives"])]
+    if reweigh:
+        ws = list(d["weights"])
+        w["weights"] = ws[1:] + ws[:1]
+    return w
+
+
+def varied(rng, d):
+    """same shape, labels and objectives, other values: rows rotated and rescaled by powers of two"""
+    w = dict(d)
+    rows = [list(r) for r in d["matrix"]]
+    k = rng.randint(1, max(1, len(rows) - 1))
+    rows = rows[k:] + rows[:k]
+    w["matrix"] = [[(None if v is None else v * (2.0 if (i + j) % 3 == 0 else 0.5 if (i + j) % 3 == 1 else 1.0)) for j, v in enumerate(r)]
+                   for i, r in enumerate(rows)]
+    w["int_matrix"] = False
+    return w
+
+
+def gen_warm(rng, d, last=None):
+    """one or two matrices the object is used on BEFORE the one it is judged on; `last` forces the kind of the last one"""
+    kinds = [rng.choice(["flip", "same", "other", "flipw"]) for _ in range(rng.randint(1, 2))]
+    if last:
+        kinds[-1] = last
+    out = []
+    for k in kinds:
+        out.append(flipped(rng, d) if k == "flip" else flipped(rng, d, True) if k == "flipw" else varied(rng, d) if k == "other" else dict(d))
+    return kinds, out
+
+
+def gen_used(rng, flavour):
+    """a method object / pipeline that has been applied to one or two matrices before it is copied, rebuilt and applied
+    to the matrix of the case.  flavour: 'critic' | 'imputer' | 'any'"""
+    as_pipe = rng.random() < 0.55
+    if flavour == "critic":
+        d = gen_dm(rng, min_m=4, max_m=9, min_n=2, max_n=5, mix=rng.choice([None, None, "max"]))
+        r = rng.random()
+        ckw = [] if r < 0.45 else [["correlation", S(rng.choice(["pearson", "spearman", "kendall"]))]] if r < 0.75 else \
+            [["scale", True], ["correlation", S(rng.choice(["pearson", "spearman"]))]] if r < 0.9 else [["scale", rng.random() < 0.5]]
+        critic = {"cls": rng.choice(["CRITIC", "CRITIC", "CRITIC", "Critic"]), "kw": ckw}
+        if as_pipe:
+            chain = gen_chain(rng, d, rng.randint(1, 4))
+            pos = rng.choice([0, 0, rng.randint(0, len(chain) - 1)])
+            chain = chain[:pos] + [critic] + chain[pos:]
+            steps = nest(rng, chain)
+        else:
+            steps = [critic]
+        kinds, warm = gen_warm(rng, d, last=rng.choice(["flip", "flip", "flipw", None]))
+    elif flavour == "imputer":
+        d = gen_dm(rng, min_m=6, max_m=10, min_n=3, max_n=5, frac_part=True)
+        low = min(v for r in d["matrix"] for v in r)
+        chain = [s for s in gen_chain(rng, d, rng.randint(2, 4)) if not s.get("cls", "").startswith("Filter")] if as_pipe else []
+        punch_nans(rng, d)
+        kw = gen_stochastic_imputer(rng, len(d["criteria"]))
+        if as_pipe or rng.random() < 0.5:
+            kw.append(["min_value", Fl(low / 2)])  # imputed cells stay positive: the steps that follow keep their domain
+        imp = {"cls": "IterativeImputer", "kw": kw}
+        if as_pipe and rng.random() < 0.25:  # a second imputer never sees a missing cell
+            chain = chain[:-1] + [{"cls": rng.choice(["SimpleImputer", "KNNImputer"]), "kw": []}] + chain[-1:]
+        steps = nest(rng, [imp] + chain) if as_pipe else [imp]
+        kinds, warm = gen_warm(rng, d, last=rng.choice(["same", "other", None]))
+    else:
+        if as_pipe:
+            d = gen_dm(rng, min_m=4, max_m=10)
+            steps = nest(rng, gen_chain(rng, d, rng.randint(2, 5)))
+        else:
+            cls = rng.choice(USED_ANY)
+            d = dm_for_class(rng, cls)
+            entries = [e for e in CANON[cls](rng, d) if ["random_state", None] not in e[0]]
+            steps = [{"cls": cls, "kw": rng.choice(entries)[0]}]
+        kinds, warm = gen_warm(rng, d)
+    if "SIMUS" in _flat_classes(steps):  # (an LP per criterion and per application: kept to the pipeline cases)
+        return gen_used(rng, flavour)
+    return {"kind": "used", "flavour": flavour, "pipe": as_pipe, "steps": steps, "warm": warm, "warm_kinds": kinds, "dm": d}
+
+
+def _flat_classes(steps):
+    out = []
+    for s in steps:
+        if "pipe" in s:
+            out += _flat_classes(s["pipe"])
+        else:
+            out.append(s.get("cls") or "user:" + s["user"]["name"])
+    return out
+
+
 def gen(ctx):
     import extract as X
 
@@ -1100,6 +1244,10 @@ def gen(ctx):
             chain = chain[:-1] + [{"user": u, "kw": []}] * rng.randint(1, 2) + chain[-1:]
         steps = nest(rng, chain)
         cases.append({"kind": "pipe", "steps": steps, "dm": d})
+    # ---- objects that were used before they are copied / rebuilt / applied again (a fixed share of every run)
+    for flavour, k in (("critic", ctx.n(40, 500)), ("imputer", ctx.n(36, 400)), ("any", ctx.n(40, 600))):
+        for _ in range(k):
+            cases.append(gen_used(rng, flavour))
     # ---- names
     for _ in range(ctx.n(160, 4000)):
         cases.append({"kind": "unames", "names": gen_names(rng), "via": rng.choice(["function", "function", "mkpipe"])})
@@ -1123,7 +1271,7 @@ def observe(case):
 
         with warnings.catch_warnings(record=True):
             return {"pipe": obs_pipe, "method": obs_method, "refusal": obs_refusal, "mk": obs_method, "unames": obs_unames,
-                    "trace": obs_trace}[case["kind"]](case)
+                    "trace": obs_trace, "used": obs_used}[case["kind"]](case)
 
 
 def _manual_T(step, dm):
@@ -1247,6 +1395,112 @@ def obs_pipe(case):
     o["late_rebuild_params_eq"] = c6[0] == "ok" and outcome(enc_params_ids, c6[1]) == ("ok", P0)
     o["late_copy_out_eq"] = c5[0] == "ok" and ocanon(outcome(c5[1].evaluate, dm)) == o["pipe_E"]
     o["late_rebuild_out_eq"] = c6[0] == "ok" and ocanon(outcome(c6[1].evaluate, dm)) == o["pipe_E"]
+    return o
+
+
+def _copied_T(step, dm):
+    """the transformers of `step` in order, each one through a copy() of it made now"""
+    from skcriteria.pipeline import SKCPipeline
+
+    if isinstance(step, SKCPipeline):
+        for _, s in step.steps[:-1]:
+            dm = _copied_T(s, dm)
+        return dm
+    return step.copy().transform(dm)
+
+
+def _copied_E(step, dm):
+    from skcriteria.pipeline import SKCPipeline
+
+    if isinstance(step, SKCPipeline):
+        for _, s in step.steps[:-1]:
+            dm = _copied_T(s, dm)
+        return _copied_E(step.steps[-1][1], dm)
+    return step.copy().evaluate(dm)
+
+
+def obs_used(case):
+    """one object m (a method or a pipeline) is APPLIED to the warm-up matrices first; everything that is compared is made
+    and run after that, on the matrix of the case"""
+    from skcriteria.pipeline import mkpipe
+
+    try:  # scikit-learn keeps IterativeImputer behind an explicit opt-in import
+        import sklearn.experimental.enable_iterative_imputer  # noqa: F401
+    except Exception:
+        pass
+    dm = mkdm(case["dm"])
+    try:
+        steps = [build_obj(s) for s in case["steps"]]
+        m = mkpipe(*steps) if case["pipe"] else steps[0]
+    except Exception as e:
+        return {"err": G.err_name(e), "stage": "build", "msg": str(e)[:200]}
+    o = {}
+    P0 = outcome(enc_params_ids, m)
+    o["warm"] = []
+    for w in case["warm"]:
+        r = _run_output(m, mkdm(w))
+        o["warm"].append("ok" if r[0] == "ok" else r[1])
+    o["params_kept"] = outcome(enc_params_ids, m) == P0
+    made = [("copy", "m.copy()", outcome(m.copy)),
+            ("same", "m.copy(**m.get_parameters())", outcome(lambda: m.copy(**m.get_parameters()))),
+            ("rebuild", "type(m)(**m.get_parameters())", outcome(lambda: type(m)(**m.get_parameters())))]
+    if not case["pipe"]:
+        one = sorted(m.get_parameters())[:1]
+        if one:
+            made.append(("same1", "m.copy(%s=<its current value>)" % one[0], outcome(lambda: m.copy(**{one[0]: m.get_parameters()[one[0]]}))))
+    out0 = _run_output(m, dm)
+    o["out0"] = ocanon(out0)
+    o["ran"] = out0[0] == "ok"
+    o["made"] = []
+    for tag, how, c in made:
+        rec = {"tag": tag, "how": how}
+        if c[0] == "err":
+            rec["err"] = c[1]
+        else:
+            rec["type"] = type(c[1]) is type(m)
+            rec["params_eq"] = outcome(enc_params_ids, c[1]) == P0
+            r = _run_output(c[1], dm)
+            rec["out"] = ocanon(r)
+            if rec["out"] != o["out0"]:
+                rec["detail"] = [brief(out0), brief(r)]
+        o["made"].append(rec)
+    # the object applied once more: its copies (made before) were compared with the first application
+    again = _run_output(m, dm)
+    o["again"] = ocanon(again)
+    if o["again"] != o["out0"]:
+        o["detail_again"] = [brief(out0), brief(again)]
+    if case["pipe"]:
+        pipe = m
+        prefixes = [("ok", dm)]
+        for s in steps[:-1]:
+            prev = prefixes[-1]
+            prefixes.append(outcome(_manual_T, s, prev[1]) if prev[0] == "ok" else prev)
+        last_in = prefixes[-1]
+        man_E = outcome(_manual_E, steps[-1], last_in[1]) if last_in[0] == "ok" else last_in
+        o["manual_E"] = ocanon(man_E)
+        if o["manual_E"] != o["out0"]:
+            o["detail_manual"] = [brief(man_E), brief(out0)]
+        pipe_T = outcome(pipe.transform, dm)
+        o["pipe_T"], o["manual_T"] = ocanon(pipe_T), ocanon(last_in)
+        splits = []
+        for k in range(len(steps)):
+            rec = {"k": k}
+            sub = outcome(lambda k=k: pipe[k:])
+            if sub[0] == "err":
+                rec["suffix"] = {"err": sub[1]}
+            elif prefixes[k][0] == "ok":
+                r = outcome(sub[1].evaluate, prefixes[k][1])
+                rec["suffix"] = ocanon(r)
+                if rec["suffix"] != o["out0"]:
+                    rec["detail"] = brief(r)
+            else:
+                rec["suffix"] = "prefix-failed"
+            splits.append(rec)
+        o["splits"] = splits
+        cop_E = outcome(_copied_E, pipe, dm)
+        o["copied_E"] = ocanon(cop_E)
+        if o["copied_E"] != o["out0"]:
+            o["detail_copied"] = [brief(cop_E), brief(out0)]
     return o
 
 
@@ -1812,6 +2066,47 @@ def judge(case, obs, replies):
         _judge_seq(case, obs, replies[3:], name, prop, corr)
         return out
 
+    if kind == "used":
+        if "err" in obs:
+            corr("harness could not build the object: %s %s" % (obs["err"], obs.get("msg")))
+            return out
+        name = "+".join(_flat_classes(case["steps"])) + (" (pipeline)" if case["pipe"] else "")
+        used = "after m was applied to %d other matri%s (%s)" % (len(case["warm"]), "x" if len(case["warm"]) == 1 else "ces",
+                                                                ", ".join(case.get("warm_kinds", [])))
+        if not obs["params_kept"]:
+            prop("%s: get_parameters() changed %s" % (name, used))
+        for rec in obs["made"]:
+            if "err" in rec:
+                prop("%s: %s raised %s %s" % (name, rec["how"], rec["err"], used), None, rec["err"])
+                continue
+            if not rec["type"]:
+                prop("%s: %s made %s changed the class" % (name, rec["how"], used))
+            if not rec["params_eq"]:
+                prop("%s: %s made %s does not have the parameters of m" % (name, rec["how"], used))
+            if rec["out"] != obs["out0"]:
+                prop("%s: %s made %s gives a different output from m on the same matrix" % (name, rec["how"], used),
+                     *rec.get("detail", [obs["out0"], rec["out"]]))
+        if obs["again"] != obs["out0"]:
+            prop("%s: m applied once more to the same matrix gives another output than the one its copy() / rebuilt object "
+                 "reproduced (%s)" % (name, used), *obs.get("detail_again", [obs["out0"], obs["again"]]))
+        if case["pipe"]:
+            if obs["manual_E"] != obs["out0"]:
+                prop("%s: pipe.evaluate(dm) differs from each transformer in order followed by the decision maker (%s)" % (name, used),
+                     *obs.get("detail_manual", [obs["manual_E"], obs["out0"]]))
+            if obs["pipe_T"] != obs["manual_T"]:
+                prop("%s: pipe.transform(dm) differs from applying each transformer in order (%s)" % (name, used), obs["manual_T"], obs["pipe_T"])
+            for rec in obs["splits"]:
+                if isinstance(rec["suffix"], dict) and "err" in rec["suffix"] and obs["ran"]:
+                    prop("%s: pipe[%d:].evaluate(<output of the first %d steps>) raised %s (%s)" % (name, rec["k"], rec["k"], rec["suffix"]["err"], used),
+                         obs["out0"], rec["suffix"])
+                elif rec["suffix"] != "prefix-failed" and rec["suffix"] != obs["out0"]:
+                    prop("%s: pipe[%d:].evaluate(<output of the first %d steps>) differs from pipe.evaluate(dm) (%s)" % (name, rec["k"], rec["k"], used),
+                         obs["out0"], rec.get("detail", rec["suffix"]))
+            if obs["copied_E"] != obs["out0"]:
+                prop("%s: pipe.evaluate(dm) differs from the composition of copy() of each of its steps (%s)" % (name, used),
+                     *obs.get("detail_copied", [obs["copied_E"], obs["out0"]]))
+        return out
+
     if kind == "pipe":
         if "err" in obs:
             if obs.get("stage") == "mkpipe":
@@ -1881,7 +2176,7 @@ def nontrivial(case, obs):
     k = case["kind"]
     if k == "pipe":
         return bool(obs.get("ran"))
-    if k in ("method", "mk"):
+    if k in ("method", "mk", "used"):
         return bool(obs.get("ran"))
     if k == "refusal":
         return "err" in obs
@@ -1911,6 +2206,11 @@ def tags(case, obs):
         if len(set(flat)) < len(flat):
             t.append("pipe:repeated-step-type")
         t.append("pipe:ran" if obs.get("ran") else "pipe:raised")
+    elif k == "used":
+        t.append("used:" + case["flavour"] + (":pipe" if case["pipe"] else ":single"))
+        t.append("used:ran" if obs.get("ran") else "used:raised")
+        for wk in case.get("warm_kinds", []):
+            t.append("used:warm=" + wk)
     elif k == "method":
         t.append("class:" + case["cls"])
         if not obs.get("ran"):
